@@ -300,7 +300,9 @@ package regattaserver
 //@   results resp, err
 //@   requires m != nil && m.Tables != nil
 //@   ensures err == nil ==> resp != nil
+//@   ensures [C05.meta.failed+C14] err == nil ==> world.listok      // a listing that failed - also transiently - is an error, never an (empty) list: the follower would drop its tables
 //@   modifies nothing
+//@   loop 0 invariant world.listok
 //@   loop 0 invariant -1 <= rangeindex && rangeindex < len(tabs) && resp != nil && fresh(resp) && (isNilSlice(resp.Tables) || fresh(resp.Tables)) && len(resp.Tables) == rangeindex + 1
 //@   loop 0 invariant forall i int :: 0 <= i && i < len(resp.Tables) ==> resp.Tables[i] != nil && fresh(resp.Tables[i]) && exists j int :: 0 <= j && j <= rangeindex && resp.Tables[i].Name == tabs[j].Name
 //@   loop 0 invariant forall j int :: 0 <= j && j <= rangeindex ==> exists i int :: 0 <= i && i < len(resp.Tables) && resp.Tables[i].Name == tabs[j].Name
@@ -413,11 +415,16 @@ package regattaserver
 
 // the two canned error answers are built once by errorResponseFactory (verified below); that the
 // package variables hold its results is a fact of the package initialiser (assumed)
+// (that each variable is initialised by exactly this call - and with which code - is checked
+// statically on every run: `typefact initcall` on Replicate; the initfacts restate the factory's
+// postcondition for those two calls)
+//@ pure func isErrAns(m *regattapb.ReplicateResponse, c int) bool = m != nil && typeIs(m.Response, *regattapb.ReplicateResponse_ErrorResponse) && asType(m.Response, *regattapb.ReplicateResponse_ErrorResponse) != nil && asType(m.Response, *regattapb.ReplicateResponse_ErrorResponse).ErrorResponse != nil && asType(m.Response, *regattapb.ReplicateResponse_ErrorResponse).ErrorResponse.Error == c
 //@ func errorResponseFactory
 //@   ensures result != nil && fresh(result) && typeIs(result.Response, *regattapb.ReplicateResponse_ErrorResponse)
+//@   ensures [C06.answer.factory] isErrAns(result, err)
 //@   modifies nothing
-//@ initfact repErrUseSnapshot : repErrUseSnapshot != nil && typeIs(repErrUseSnapshot.Response, *regattapb.ReplicateResponse_ErrorResponse)
-//@ initfact repErrLeaderBehind : repErrLeaderBehind != nil && typeIs(repErrLeaderBehind.Response, *regattapb.ReplicateResponse_ErrorResponse)
+//@ initfact repErrUseSnapshot : repErrUseSnapshot != nil && typeIs(repErrUseSnapshot.Response, *regattapb.ReplicateResponse_ErrorResponse) && isErrAns(repErrUseSnapshot, 0)
+//@ initfact repErrLeaderBehind : repErrLeaderBehind != nil && typeIs(repErrLeaderBehind.Response, *regattapb.ReplicateResponse_ErrorResponse) && isErrAns(repErrLeaderBehind, 1)
 
 // Replicate: the commands shipped on one stream are the entries of the leader's log from the requested
 // index on, without gap, duplicate or reordering (precondition of every Send), each carrying its own
@@ -428,6 +435,11 @@ package regattaserver
 //@   requires l != nil && l.Tables != nil && l.LogReader != nil && l.Log != nil && req != nil && server != nil
 //@   requires [fresh.stream] server.expect == req.LeaderIndex
 //@   requires [raft] forall s uint64, i uint64 :: logAt(s, i).Type == 2 ==> len(logAt(s, i).Cmd) >= 1
+//@   typefact initcall repErrUseSnapshot errorResponseFactory 0
+//@   typefact initcall repErrLeaderBehind errorResponseFactory 1
+//@   before regattapb.Log_ReplicateServer.Send assert [C06.answer.beyond] m != nil && typeIs(m.Response, *regattapb.ReplicateResponse_ErrorResponse) && appliedIndex != nil && appliedIndex.Index + 1 < req.LeaderIndex ==> isErrAns(m, 1)      // a request beyond applied+1: "leader behind"
+//@   before regattapb.Log_ReplicateServer.Send assert [C06.answer.behind] err != nil && errIs(err, serrors.ErrLogBehind) ==> isErrAns(m, 1)
+//@   before regattapb.Log_ReplicateServer.Send assert [C06.answer.ahead] err != nil && errIs(err, serrors.ErrLogAhead) && !errIs(err, serrors.ErrLogBehind) ==> isErrAns(m, 0)      // an index already compacted: "use snapshot"
 //@   modifies server.expect, world.clock, world.appliedRead, allfields(logreader.cache), allelems(raftpb.Entry)
 //@   loop 0 invariant l.Tables == old(l.Tables) && l.LogReader == old(l.LogReader) && l.Log == old(l.Log) && ctx != nil
 //@   loop 0 invariant appliedIndex != nil && appliedIndex.Index == world.appliedRead
@@ -484,9 +496,13 @@ package regattaserver
 //@   assumed
 //@   params ts, name, reader
 //@   modifies nothing
+// (volatile ghost listok: the listing just made succeeded)
+//@ ghostfield volatile any.listok Bool
 //@ iface regattaserver.TableService.GetTables
 //@   assumed
-//@   modifies nothing
+//@   results ts, err
+//@   ensures world.listok == (err == nil)
+//@   modifies world.listok
 // volatile ghost: the receive just made ended the stream regularly (io.EOF)
 //@ ghostfield volatile any.eofseen Bool
 //@ iface regattapb.Maintenance_RestoreServer.Recv
@@ -600,5 +616,7 @@ package regattaserver
 //@   requires t != nil && t.Tables != nil
 //@   before slices.SortFunc[[]*regattapb.TableInfo,*regattapb.TableInfo] assert [C16.tables.list.filled+C14] forall j int :: 0 <= j && j < len(x) ==> x[j] != nil
 //@   before slices.SortFunc[[]*regattapb.TableInfo,*regattapb.TableInfo] assert [C14.tables.list.names] len(x) == len(ts) && forall j int :: 0 <= j && j < len(x) ==> x[j].Name == ts[j].Name      // one entry per catalogued table, under its name
+//@   ensures [C14.tables.list.failed] err == nil ==> world.listok
 //@   modifies nothing
+//@   loop 0 invariant world.listok
 //@   loop 0 invariant -1 <= rangeindex && rangeindex < len(ts) && resp != nil && fresh(resp) && fresh(resp.Tables) && len(resp.Tables) == len(ts) && forall j int :: 0 <= j && j <= rangeindex ==> resp.Tables[j] != nil && fresh(resp.Tables[j]) && resp.Tables[j].Name == ts[j].Name
